@@ -6,7 +6,7 @@ CONSTANTS
   RegOpts <- R_q2
   MaxLoads = 3
   RegPhases = {0, 1}
-  WithBad = FALSE
+  WithBad = TRUE
   Bug = {}
 VIEW View
 INVARIANTS TypeOK ParsedFresh
